@@ -27,13 +27,13 @@ Proof. unfold zlen. lia. Qed.
 
 (* ------------------------------------------------------------------ the payload of one value *)
 Lemma okb_len_mod m v : is_len_mod m = true -> mod_value_okb m v = true ->
-  exists l, v = VB l /\ zlen l < two64 /\ (m = MString -> utf8_valid l = true).
+  exists l, v = VB l /\ zlen l < two64 /\ (m = MString \/ m = MFastStr -> utf8_valid l = true).
 Proof.
   intros Hm Hv. destruct m; try discriminate Hm; destruct v as [z|l|k l]; try discriminate Hv; cbn [mod_value_okb] in Hv;
     exists l; (split; [reflexivity|]).
   - apply andb_prop in Hv. destruct Hv as [H1 H2]. split; [lia|auto].
-  - split; [lia|discriminate].
-  - split; [lia|discriminate].
+  - apply andb_prop in Hv. destruct Hv as [H1 H2]. split; [lia|auto].
+  - split; [lia|intros [H|H]; discriminate H].
 Qed.
 
 Lemma okb_int_mod m v : is_len_mod m = false -> mod_value_okb m v = true -> exists z, v = VI z.
@@ -82,8 +82,8 @@ Proof.
       rewrite Hl. destruct (okb_len_mod m v Hl Hv) as (l & -> & Hlen & Hu). cbn [vbytes].
       rewrite <- app_assoc. destruct (len_merge_rt l r a Hlen) as [H1 H2].
       destruct m; try discriminate Hl.
-      * unfold string_merge. rewrite (bind_ok _ _ _ _ _ H2). cbn [vbytes]. rewrite Hu by reflexivity. reflexivity.
-      * exact H2.
+      * unfold string_merge. rewrite (bind_ok _ _ _ _ _ H2). cbn [vbytes]. rewrite Hu by (left; reflexivity). reflexivity.
+      * unfold faststr_merge. rewrite (bind_ok _ _ _ _ _ H2). cbn [vbytes]. rewrite Hu by (right; reflexivity). reflexivity.
       * exact H1.
 Qed.
 
